@@ -32,6 +32,18 @@ def handle (f : List String) : String :=
         else "ok"
       s!"{id}\t{boolStr (m == bitmap)}\t{orc}\t{m}"
     | _, _, _, _, _, _ => s!"{id}\t0\tfail:bad-line\t-"
+  | [id, "list", rune, dhex, rhex, phex, names, impl] =>
+    match parseNat? rune, hexDecode? dhex, hexDecode? rhex, hexDecode? phex, (splitOnChar names ',').mapM hexDecode? with
+    | some rune, some d, some r, some p, some ns =>
+      let db := delimByteOf rune
+      -- an empty pattern is the special "return the delimiter" request: no mailbox is listed
+      let m := if p.isEmpty then String.ofList (ns.map fun _ => '0') else
+        String.ofList (ns.map fun n => if matchListTop (toB n) (toB d) db (toB r) (toB p) then '1' else '0')
+      let spec := if p.isEmpty then m else
+        String.ofList (ns.map fun n => if resolveMatch (toB n) db (toB r) (toB p) then '1' else '0')
+      let orc := if impl == spec then "ok" else "fail:list-result-differs-from-wildcard-semantics"
+      s!"{id}\t{boolStr (m == impl)}\t{orc}\t{m}"
+    | _, _, _, _, _ => s!"{id}\t0\tfail:bad-line\t-"
   | [id, "one", rune, dhex, rhex, phex, nhex, impl] =>
     match parseNat? rune, hexDecode? dhex, hexDecode? rhex, hexDecode? phex, hexDecode? nhex with
     | some rune, some d, some r, some p, some n =>
